@@ -578,8 +578,15 @@ def rule_y13(ctx, funcs: List[Func]) -> None:
         if len(f.params) < 2:
             continue
         smi = f.params[1]
+        qattrs = {"query"}
+        init = ctx.prog.lookup_method(f.cls, "__init__") if f.cls is not None else None
+        if init is not None:
+            for a_ in own_nodes(init.node):
+                if isinstance(a_, ast.Assign) and isinstance(a_.value, ast.Call) and unparse(a_.value.func).split(".")[-1] == "FGQuery":
+                    qattrs |= {t.attr for t in a_.targets if isinstance(t, ast.Attribute)}
+
         def is_query(c):
-            return isinstance(c, ast.Call) and isinstance(c.func, ast.Attribute) and c.func.attr == "get" and "query" in unparse(c.func.value) and bool(c.args)
+            return isinstance(c, ast.Call) and isinstance(c.func, ast.Attribute) and c.func.attr == "get" and isinstance(c.func.value, ast.Attribute) and c.func.value.attr in qattrs and bool(c.args)
 
         queries = [c for c in own_nodes(f.node) if is_query(c)]
         # a query made by a method of the class that this one hands the SMILES to
